@@ -72,7 +72,7 @@ def cases(tier, seed):
                               tags={"jet": name, "variant": variant, "params": j["rparams"], "result": j["rresult"],
                                     "mode": "jet under test uninterpreted"}))
             if has_model and variant == "direct":
-                out.append(E.Case("jet-%s-%s-int" % (name, variant), prog, interpret=True, validate=True,
+                out.append(E.Case("jet-%s-%s-int" % (name, variant), prog, interpret=True, validate=True, extra_points=(24 if tier == "quick" else 200),
                                   tags={"jet": name, "variant": variant, "mode": "interpreted (validated against the C jet)"}))
     # reserved jets and unknown jets must be rejected
     out.append(E.Case("jet-reserved-verify", Program([], Block([ExprStmt(JetCall("verify", [Wit("A0", BOOL)], UNIT))])),
@@ -116,7 +116,7 @@ def main():
                 "jets_with_interpreted_model_validated_against_C": len(set(r["tags"].get("jet") for r in results if r["cid"].endswith("-int") and r["validated"] > 0))}
 
     return suite.run_property(
-        "C13", cs,
+        "C13", cs, rejection_is_violation=True,
         technique="SMT (z3, QF_UFBV): jet under test as an uninterpreted function on both sides; equivalence of emitted DAG and source-level call for all argument values and all jet meanings",
         functions=["compile.rs: Call::compile (Jet), SingleExpression::tuple / BTreeSlice::fold (argument tupling), with_debug_symbol",
                    "ast.rs: jet lookup, reserved jets, arity and result type check", "jet.rs: source_type/target_type (as the source of the generated signatures)"],
